@@ -348,6 +348,30 @@ pub fn dispatch(ctx: &mut Ctx, op: &str, call: &Value) -> Option<Value> {
                 }
             }
         },
+        // make the structure just built the image under test: everything that parses bytes now parses the builder's output
+        "use_built" => {
+            if out::arg_str(call, "which") == "header" {
+                match &ctx.hbuilt {
+                    None => return Some(out::skipped()),
+                    Some(bx) => {
+                        ctx.base = (&**bx as *const DynSizedStructure<h::Multiboot2BasicHeader>).cast::<u8>();
+                        ctx.len = size_of_val(&**bx);
+                    }
+                }
+            } else {
+                match &ctx.built {
+                    None => return Some(out::skipped()),
+                    Some(bx) => {
+                        ctx.base = (&**bx as *const DynSizedStructure<BootInformationHeader>).cast::<u8>();
+                        ctx.len = size_of_val(&**bx);
+                    }
+                }
+            }
+            ctx.bi = None;
+            ctx.hdr = None;
+            ctx.its.clear();
+            out::unit()
+        }
         "hb_new" => {
             let arch = if u(call, "arch") == 0 { h::HeaderTagISA::I386 } else { h::HeaderTagISA::MIPS32 };
             ctx.hbld = Some(h::Builder::new(arch));
